@@ -14,6 +14,7 @@ Files == FileNames
 OrderQuick == <<"a", "b", "c">>
 OrderThorough == <<"a", "b", "c", "d">>
 SlotsQuick == [a |-> 2, b |-> 1, c |-> 1]
+SlotsQuick2 == [a |-> 2, b |-> 2, c |-> 1]
 SlotsThorough == [a |-> 2, b |-> 2, c |-> 2, d |-> 1]
 Root == "a"
 
@@ -63,6 +64,8 @@ Pick == /\ stage < N
 Run == stage = N /\ MNext /\ UNCHANGED stage
 Next == Pick \/ Run
 Spec == Init /\ [][Next]_vars
+(* liveness: "loading always terminates" - under weak fairness of the loader's steps every behaviour reaches a verdict *)
+LiveSpec == Spec /\ WF_vars(Next)
 
 Finished == stage = N /\ MDone
 
@@ -79,6 +82,8 @@ Agreement == Finished =>
   /\ status = "ok" => out = ExpandD(fsys, Root, Cardinality(Files) + 1)
 
 Terminates == stage = N => Len(out) <= 200
+EventuallyFinished == <>Finished
+
 
 CaseJson ==
   [fs |-> fsys, status |-> status, out |-> out,
